@@ -126,6 +126,23 @@ pub fn def_strategy(vd: DefView, hi_q: usize, hi_t: usize, len_mult: usize) -> i
     }
 }
 
+/// long-history variant of `def_strategy`: N in min..min+7, 300..1200 values
+pub fn def_strategy_long(vd: DefView) -> impl Fn(Tier) -> BoxedStrategy<Case> + Send + Sync {
+    move |tier: Tier| {
+        let vd = vd.clone();
+        (vd.min_n..=vd.min_n + 7, gen::dyadic_scale())
+            .prop_flat_map(move |(n, sc)| {
+                let mut cfg = StreamCfg::new(n).scale(sc).kmax(512);
+                if vd.positive {
+                    cfg = cfg.positive();
+                }
+                let mk = vd.mk;
+                gen::long_stream(cfg, 300, tier.pick(1200, 5000)).prop_map(move |xs| Case::of(mk(n), xs))
+            })
+            .boxed()
+    }
+}
+
 pub fn nontrivial_default(case: &Case, n: usize) -> (bool, Vec<String>) {
     let l = gen::shape_labels(&case.xs, n);
     let mut v: Vec<_> = case.xs.iter().map(|r| r.big()).collect();
